@@ -45,6 +45,7 @@ type pEntry struct {
 	Flags  uint32 // rpm file flags
 	InPayload bool // rpm: present in cpio
 	Digest string // rpm: header file digest
+	Uid, Gid int  // numeric owner ids as stored (tar members)
 }
 
 type member struct {
@@ -309,7 +310,7 @@ func readTar(b []byte) ([]pEntry, map[string][]byte, error) {
 		if err != nil {
 			return out, data, err
 		}
-		e := pEntry{Path: h.Name, Mode: h.Mode, Uname: h.Uname, Gname: h.Gname, MTime: h.ModTime.Unix(), Size: h.Size, Link: h.Linkname, Format: tarFormatName(h.Format), InPayload: true}
+		e := pEntry{Path: h.Name, Mode: h.Mode, Uid: h.Uid, Gid: h.Gid, Uname: h.Uname, Gname: h.Gname, MTime: h.ModTime.Unix(), Size: h.Size, Link: h.Linkname, Format: tarFormatName(h.Format), InPayload: true}
 		switch h.Typeflag {
 		case tar.TypeReg, tar.TypeRegA:
 			e.Kind = "file"
@@ -1223,7 +1224,25 @@ func decodeArch(b []byte) (*pkgObs, error) {
 	return o, nil
 }
 
+// decodePackage decodes with the format's reader and adds the facts every format shares
 func decodePackage(format string, b []byte) (*pkgObs, error) {
+	o, err := decodePackageOf(format, b)
+	if o != nil {
+		// nfpm never copies numeric owner ids from the build host: every member it writes says 0
+		o.Struct["numeric_owner_ids_zero"] = true
+		for _, l := range [][]pEntry{o.Payload, o.Control} {
+			for _, e := range l {
+				if e.Uid != 0 || e.Gid != 0 {
+					o.Struct["numeric_owner_ids_zero"] = false
+					o.Notes = append(o.Notes, fmt.Sprintf("member %s carries the numeric owner %d:%d (names %q:%q)", e.Path, e.Uid, e.Gid, e.Uname, e.Gname))
+				}
+			}
+		}
+	}
+	return o, err
+}
+
+func decodePackageOf(format string, b []byte) (*pkgObs, error) {
 	switch format {
 	case "deb":
 		return decodeDeb(b)
